@@ -422,4 +422,183 @@ theorem remove_indexOK (s : HS) (i : Int) (r : HS × Nat) (ok : IndexOK s) (h : 
               (up_indexOK _ _ _ _ (down_indexOK _ _ _ _ _ (swap_indexOK _ _ _ _ ok h1) h2) h3) h
 
 
+theorem indexOK_objs_congr (h : HS) (objs' : Nat → Obj) (ok : IndexOK h)
+    (hsame : ∀ o ∈ h.pq, (objs' o).index = (h.objs o).index) : IndexOK { h with objs := objs' } := by
+  intro i hi
+  have := ok i hi
+  show (objs' (h.pq[i])).index = (i : Int)
+  rw [hsame _ (List.getElem_mem hi)]; exact this
+
+theorem removeFromPQ_indexOK (s s' : HS) (o : Nat) (ok : IndexOK s) (h : removeFromPQ true s o = some s') :
+    IndexOK s' := by
+  unfold removeFromPQ at h
+  split at h
+  · cases h; exact ok
+  · split at h
+    · cases h
+    · rename_i r hr
+      cases h
+      exact (remove_indexOK s _ r ok hr).1
+
+theorem peekAndShift_indexOK (s : HS) (t : Int) (r : HS × Option Nat) (ok : IndexOK s)
+    (h : peekAndShift s t = some r) : IndexOK r.1 := by
+  unfold peekAndShift at h
+  split at h
+  · split at h
+    · cases h; exact ok
+    · split at h
+      · cases h
+      · rename_i r' hr'
+        cases h
+        exact (pop_indexOK s r' ok hr').1
+  · cases h; exact ok
+
+/-- the step pushes object `o` onto the heap -/
+def pushes (a : Step) (o : Nat) : Prop := a = Step.startPQPush o ∨ a = Step.touchPQPush o
+
+/-- `IndexOK` is preserved by every micro-step of the patched code, provided the step does not push an
+object that is already in the heap — the only way the index fields can go wrong -/
+theorem step_indexOK (s s' : St) (a : Step) (ok : IndexOK s.h) (h : step true s a = Res.ok s')
+    (hnodup : ∀ o, pushes a o → o ∉ s.h.pq) : IndexOK s'.h := by
+  cases a with
+  | finPop c o => simp only [step] at h; split at h <;> (cases h; exact ok)
+  | finRemove o =>
+    simp only [step] at h
+    split at h
+    · unfold okH at h
+      split at h
+      · cases h
+      · rename_i h1 hr; cases h; exact removeFromPQ_indexOK _ _ _ ok hr
+    · cases h
+  | reqPop c o d => simp only [step] at h; split at h <;> (cases h; exact ok)
+  | reqRemove o =>
+    simp only [step] at h
+    split at h
+    · unfold okH at h
+      split at h
+      · cases h
+      · rename_i h1 hr; cases h; exact removeFromPQ_indexOK _ _ _ ok hr
+    · cases h
+  | reqPut o =>
+    simp only [step] at h
+    repeat' split at h
+    all_goals first | (cases h; exact ok) | cases h
+  | touchPop c o => simp only [step] at h; split at h <;> (cases h; exact ok)
+  | touchRemove o =>
+    simp only [step] at h
+    split at h
+    · unfold okH at h
+      split at h
+      · cases h
+      · rename_i h1 hr; cases h; exact removeFromPQ_indexOK _ _ _ ok hr
+    · cases h
+  | touchMapPush o p =>
+    simp only [step] at h
+    repeat' split at h
+    all_goals first
+      | (cases h; exact indexOK_objs_congr s.h _ ok (fun o' _ => by simp only [setPri]; split <;> rfl))
+      | cases h
+  | touchPQPush o =>
+    simp only [step] at h
+    split at h
+    · unfold okH at h
+      split at h
+      · cases h
+      · rename_i h1 hr; cases h
+        exact push_indexOK _ _ _ ok (hnodup o (Or.inr rfl)) hr
+    · cases h
+  | startMapPush c o p =>
+    simp only [step] at h
+    repeat' split at h
+    all_goals first
+      | (cases h; exact indexOK_objs_congr s.h _ ok (fun o' _ => by simp only [setDeliver]; split <;> rfl))
+      | cases h
+  | startPQPush o =>
+    simp only [step] at h
+    split at h
+    · unfold okH at h
+      split at h
+      · cases h
+      · rename_i h1 hr; cases h
+        exact push_indexOK _ _ _ ok (hnodup o (Or.inl rfl)) hr
+    · cases h
+  | scanPeek t =>
+    simp only [step] at h
+    split at h
+    · cases h
+    · rename_i h1 hr; cases h; exact peekAndShift_indexOK _ _ _ ok hr
+    · rename_i h1 o hr; cases h; exact peekAndShift_indexOK _ _ _ ok hr
+  | scanPop o =>
+    simp only [step] at h
+    repeat' split at h
+    all_goals first | (cases h; exact ok) | cases h
+  | emptyResetInflight =>
+    simp only [step] at h
+    split at h
+    · cases h
+    · cases h; intro i hi; simp at hi
+  | emptyResetDeferred => simp only [step] at h; split at h <;> first | (cases h; exact ok) | cases h
+  | emptyRest => simp only [step] at h; split at h <;> first | (cases h; exact ok) | cases h
+  | deferMapPush o =>
+    simp only [step] at h
+    repeat' split at h
+    all_goals first | (cases h; exact ok) | cases h
+  | deferPQPush o p => simp only [step] at h; split at h <;> first | (cases h; exact ok) | cases h
+  | dscanPeek t =>
+    simp only [step] at h
+    repeat' split at h
+    all_goals first | (cases h; exact ok) | cases h
+  | dscanPop o =>
+    simp only [step] at h
+    repeat' split at h
+    all_goals first | (cases h; exact ok) | cases h
+  | reload o =>
+    simp only [step] at h
+    split at h
+    · rename_i hq
+      cases h
+      apply indexOK_objs_congr s.h _ ok
+      intro o' ho'
+      have : o' ≠ o := fun e => hq.2 (e ▸ ho')
+      simp [freshObj, this]
+    · cases h
+  | put o =>
+    simp only [step] at h
+    split at h
+    · cases h
+    · rename_i hq
+      cases h
+      apply indexOK_objs_congr s.h _ ok
+      intro o' ho'
+      have : o' ≠ o := by
+        intro e; apply hq; subst e
+        exact Or.inr (Or.inr (Or.inr (Or.inl ho')))
+      simp [freshObj, this]
+
+/-- along the schedule no object is pushed while it is already in the heap -/
+def NoDupPush : St → List Step → Prop
+  | _, [] => True
+  | s, a :: as =>
+    (∀ o, pushes a o → o ∉ s.h.pq) ∧
+      match step true s a with
+      | Res.ok s' => NoDupPush s' as
+      | _ => True
+
+theorem run_indexOK : ∀ (sched : List Step) (s s' : St), IndexOK s.h → NoDupPush s sched →
+    run true s sched = Res.ok s' → IndexOK s'.h := by
+  intro sched
+  induction sched with
+  | nil => intro s s' ok _ h; simp only [run] at h; cases h; exact ok
+  | cons a as ih =>
+    intro s s' ok hnd h
+    simp only [run] at h
+    obtain ⟨h1, h2⟩ := hnd
+    cases hs : step true s a with
+    | ok s1 =>
+      rw [hs] at h h2
+      exact ih s1 s' (step_indexOK s s1 a ok hs h1) h2 h
+    | panic => rw [hs] at h; cases h
+    | disabled => rw [hs] at h; cases h
+
+
 end Nsq.Proofs.InFlight
